@@ -646,6 +646,23 @@ CODES = list(range(1, 19))
 
 def check_C10(ctx):
     proofs_or_violation(ctx, ['Properties_C10.v'])
+    # the library's own writers over a sink that fails (a full stream, a pipe without room): the failure comes back
+    rng10 = ctx.rng
+    wl10 = []
+    for _ in range(120 if ctx.quick else 6000):
+        cap = rng10.choice([0, 1, 4, 16])
+        calls = []
+        for _ in range(rng10.randint(1, 6)):
+            k = rng10.choice('wWKK')
+            if k == 'w':
+                calls.append('w%d' % rng10.randrange(256))
+            elif k == 'W':
+                w = rng10.choice([1, 2, 4]); c = rng10.choice([1, 2, 5])
+                calls.append('W%dx%s' % (w, ''.join('%02x' % rng10.randrange(256) for _ in range(w * c))))
+            else:
+                calls.append('K%d:%d' % (rng10.choice([1, 3, 9]), rng10.randrange(256)))
+        wl10.append((cap, calls, 0))
+    refusing_sinks(ctx, get_pool(), rng10, wl10)
     S = CodecStreams(ctx, nvals=(5 if ctx.quick else 80))
     pool = S.pool
     rows = [r for r in S.run_enc() if r['h'] and r['h']['st'] == '0']
@@ -1412,105 +1429,10 @@ def check_C16(ctx):
     return finish_with_proofs(ctx)
 
 
-def check_C17(ctx):
-    proofs_or_violation(ctx, ['Properties_C17.v'])
-    pool = get_pool()
-    rng = ctx.rng
-    cases = []
-    rkinds = ['inst', 'buf', 'ped', 'vbuf', 'vped', 'stream', 'fd', 'bbuf', 'bped', 'binst']
-    for _ in range(600 if ctx.quick else 60000):
-        n = rng.choice([0, 1, 2, 7, 8, 9, 16, 31])
-        # 0xff / 0x80 / 0x00 / 0x1a matter to stream readers (EOF as a char, sign, NUL, text-mode end of file)
-        data = ''.join('%02x' % rng.choice([0xff, 0xff, 0x80, 0x00, 0x1a, 0x0a, 0x0d, rng.randrange(256), rng.randrange(256)]) for _ in range(n)) or '-'
-        calls = [c for c in gen_rcalls(rng, n, rng.randint(1, 8), False)]
-        cases.append((n, data, calls))
-    lines = []
-    for n, data, calls in cases:
-        for k in rkinds:
-            cs = calls
-            if k == 'fd':
-                cs = [c for c in calls if c[0] not in 'SE']     # FdReader has no Skip; its Ensure is a no-op
-            if k == 'stream':
-                cs = [c for c in calls if c[0] != 'E']          # StreamReader::Ensure is a no-op
-            lines.append((k, n, data, cs, 'rseq %s %d - 0 %s %s' % (k, n + 5, data, ','.join(cs) or '-')))
-    ho = run_prim(pool, [l[4] for l in lines])
-    # the (const void*, size) constructors behave like the (const uint8_t*, size) ones: same model
-    mo = run_driver(pool, [l[4].replace('rseq vbuf', 'rseq buf').replace('rseq vped', 'rseq ped') for l in lines])
-    broken = []
-    ref = {}
-    for (k, n, data, cs, line), o, m in zip(lines, ho, mo):
-        ctx.count('reader:' + k, line)
-        if o.startswith(('CRASH', 'HARNESS', 'EXCEPTION', 'OOM')):
-            ctx.violate('memory-error:' + k, 'reader %s crashed or tripped a sanitizer: %s -> %s' % (k, line[:200], o[:300]), {'case': line, 'output': o})
-            continue
-        o, obs = split_obs(o)
-        f = sx.fields(o)
-        ov = obs_violation(k, f, obs, n=n, lim=n + 5)
-        if ov:
-            ctx.violate('observers:' + k, 'reader %s: %s: %s' % (k, ov, line[:200]), {'case': line, 'output': o, 'observers': obs})
-        got = first_fail(f['res'])
-        # reference: the list model on the same calls
-        want = first_fail(sx.fields(m)['res']) if not m.startswith('DRIVER') else None
-        if want is not None:
-            # same bytes in the same order, first failure at the same call; the failing status may be
-            # ReadLimitReached, StreamError or IOError depending on the reader
-            ok = len(got) == len(want) and all((a == b) or (not a.startswith('0') and not b.startswith('0') and a in ('12', '14', '16'))
-                                               for a, b in zip(got, want))
-            if not ok:
-                ctx.violate('reader-contract:' + k, 'reader %s deviates from the byte-source contract: %s -> %s (expected %s)' % (k, line[:200], ','.join(got)[:160], ','.join(want)[:160]),
-                            {'case': line, 'output': o, 'model': m})
-            elif k in ('inst', 'buf', 'ped', 'vbuf', 'vped', 'bbuf', 'bped', 'binst') and sx.fields(m) != f:
-                broken.append({'case': line, 'hraw': o, 'mraw': m})
-    # writers
-    wkinds = ['inst', 'buf', 'ped', 'vbuf', 'vped', 'cx', 'stream', 'fd', 'bbuf', 'bped', 'binst']
-    wl = []
-    for _ in range(500 if ctx.quick else 50000):
-        cap = rng.choice([0, 1, 4, 16, 64])
-        calls, used, fits = [], 0, True
-        for _ in range(rng.randint(1, 8)):
-            k = rng.choice('PwWWK')
-            if k == 'P':
-                calls.append('P%d' % rng.choice([0, 1, max(cap - used, 0), max(cap - used, 0) + 1, 2 ** 64 - 1]))
-            elif k == 'w':
-                calls.append('w%d' % rng.randrange(256)); used += 1
-            elif k == 'W':
-                w = rng.choice([1, 2, 4, 8]); c = rng.choice([0, 1, 2])
-                calls.append('W%dx%s' % (w, ''.join('%02x' % rng.randrange(256) for _ in range(w * c)))); used += w * c
-            else:
-                c = rng.choice([0, 1, 3]); calls.append('K%d:%d' % (c, rng.randrange(256))); used += c
-        wl.append((cap, calls, used))
-    wlines = []
-    for cap, calls, used in wl:
-        for k in wkinds:
-            cs = calls
-            if k == 'fd':
-                cs = [c for c in calls if c[0] != 'K']
-            if k in ('buf', 'vbuf', 'bbuf') and used > cap:
-                continue        # an unchecked writer must not be driven past its capacity (caller's contract)
-            wlines.append((k, cap, cs, used, 'wseq %s %d %d - 0 %s' % (k, cap, cap, ','.join(cs) or '-')))
-    ho = run_prim(pool, [l[4] for l in wlines])
-    mo = run_driver(pool, [l[4].replace('wseq vbuf', 'wseq buf').replace('wseq vped', 'wseq ped') for l in wlines])
-    for (k, cap, cs, used, line), o, m in zip(wlines, ho, mo):
-        ctx.count('writer:' + k, line)
-        if o.startswith(('CRASH', 'HARNESS', 'EXCEPTION', 'OOM')):
-            ctx.violate('memory-error:' + k, 'writer %s crashed or tripped a sanitizer: %s -> %s' % (k, line[:200], o[:300]), {'case': line, 'output': o})
-            continue
-        o, obs = split_obs(o)
-        f = sx.fields(o)
-        ov = obs_violation(k, f, obs, cap=(cap if k != 'binst' else None), lim=cap)
-        if ov:
-            ctx.violate('observers:' + k, 'writer %s: %s: %s' % (k, ov, line[:200]), {'case': line, 'output': o, 'observers': obs})
-        if m.startswith('DRIVER'):
-            continue
-        g = sx.fields(m)
-        if f.get('res') != g.get('res') or f.get('bytes') != g.get('bytes'):
-            if k in ('stream', 'fd', 'inst'):
-                ctx.violate('writer-contract:' + k, 'writer %s does not produce the byte stream of the calls: %s -> %s (expected %s)' % (k, line[:200], o[:160], m[:160]), {'case': line, 'output': o, 'model': m})
-            else:
-                # checked writers must refuse exactly the over-capacity calls: decided against the model
-                ctx.violate('writer-contract:' + k, 'writer %s deviates from the byte-sink contract (refusals / bytes): %s -> %s (expected %s)' % (k, line[:200], o[:160], m[:160]), {'case': line, 'output': o, 'model': m})
-    # a stream that refuses data after CAP bytes (a full device): the call that does not fit must report the failure, and so
-    # must every later call that carries bytes; what arrived is a prefix of what was sent.  Plain and under BoundedWriter.
+def refusing_sinks(ctx, pool, rng, wl):
+    """StreamWriter over a stream that takes CAP bytes and refuses the rest, plain and under BoundedWriter, and FdWriter over a pipe
+    with little room: the call that does not fit must report the failure, as must every later call that carries bytes, and what
+    arrived is a prefix of what was sent (C17: same outcome as the checked buffer writers; C10: a sink's failure is not swallowed)"""
     ll = []
     for cap, calls, used in wl:
         sent = ''
@@ -1566,6 +1488,128 @@ def check_C17(ctx):
             bad = 'the stream holds %s, not a prefix (of at least %d bytes) of what was sent %s' % (got[:60], cum, sent[:60])
         if bad:
             ctx.violate('writer-contract:' + k, 'StreamWriter over a stream that takes %d bytes: %s: %s -> %s' % (cap, bad, line[:200], o[:160]), {'case': line, 'output': o})
+
+
+def check_C17(ctx):
+    proofs_or_violation(ctx, ['Properties_C17.v'])
+    pool = get_pool()
+    rng = ctx.rng
+    cases = []
+    rkinds = ['inst', 'buf', 'ped', 'vbuf', 'vped', 'stream', 'fd', 'bbuf', 'bped', 'binst']
+    for _ in range(600 if ctx.quick else 60000):
+        n = rng.choice([0, 1, 2, 7, 8, 9, 16, 31])
+        # 0xff / 0x80 / 0x00 / 0x1a matter to stream readers (EOF as a char, sign, NUL, text-mode end of file)
+        data = ''.join('%02x' % rng.choice([0xff, 0xff, 0x80, 0x00, 0x1a, 0x0a, 0x0d, rng.randrange(256), rng.randrange(256)]) for _ in range(n)) or '-'
+        calls = [c for c in gen_rcalls(rng, n, rng.randint(1, 8), False)]
+        cases.append((n, data, calls))
+    lines = []
+    for n, data, calls in cases:
+        for k in rkinds:
+            cs = calls
+            if k == 'fd':
+                cs = [c for c in calls if c[0] not in 'SE']     # FdReader has no Skip; its Ensure is a no-op
+            if k == 'stream':
+                cs = [c for c in calls if c[0] != 'E']          # StreamReader::Ensure is a no-op
+            lines.append((k, n, data, cs, 'rseq %s %d - 0 %s %s' % (k, n + 5, data, ','.join(cs) or '-')))
+    ho = run_prim(pool, [l[4] for l in lines])
+    # the (const void*, size) constructors behave like the (const uint8_t*, size) ones: same model
+    mo = run_driver(pool, [l[4].replace('rseq vbuf', 'rseq buf').replace('rseq vped', 'rseq ped') for l in lines])
+    broken = []
+    ref = {}
+    for (k, n, data, cs, line), o, m in zip(lines, ho, mo):
+        ctx.count('reader:' + k, line)
+        if o.startswith(('CRASH', 'HARNESS', 'EXCEPTION', 'OOM')):
+            ctx.violate('memory-error:' + k, 'reader %s crashed or tripped a sanitizer: %s -> %s' % (k, line[:200], o[:300]), {'case': line, 'output': o})
+            continue
+        o, obs = split_obs(o)
+        f = sx.fields(o)
+        ov = obs_violation(k, f, obs, n=n, lim=n + 5)
+        if ov:
+            ctx.violate('observers:' + k, 'reader %s: %s: %s' % (k, ov, line[:200]), {'case': line, 'output': o, 'observers': obs})
+        got = first_fail(f['res'])
+        # reference: the list model on the same calls
+        want = first_fail(sx.fields(m)['res']) if not m.startswith('DRIVER') else None
+        if want is not None:
+            # same bytes in the same order, first failure at the same call; the failing status may be
+            # ReadLimitReached, StreamError or IOError depending on the reader
+            ok = len(got) == len(want) and all((a == b) or (not a.startswith('0') and not b.startswith('0') and a in ('12', '14', '16'))
+                                               for a, b in zip(got, want))
+            if not ok:
+                ctx.violate('reader-contract:' + k, 'reader %s deviates from the byte-source contract: %s -> %s (expected %s)' % (k, line[:200], ','.join(got)[:160], ','.join(want)[:160]),
+                            {'case': line, 'output': o, 'model': m})
+            elif k in ('inst', 'buf', 'ped', 'vbuf', 'vped', 'bbuf', 'bped', 'binst') and sx.fields(m) != f:
+                broken.append({'case': line, 'hraw': o, 'mraw': m})
+    # copies of reader objects: a copy continues where the original stands, an assigned-over reader is the one it was assigned from
+    rc = []
+    for _ in range(60 if ctx.quick else 3000):
+        n1, n2 = rng.choice([1, 2, 5, 12]), rng.choice([0, 1, 3, 12])
+        d1 = ''.join('%02x' % rng.randrange(256) for _ in range(n1))
+        d2 = ''.join('%02x' % rng.randrange(256) for _ in range(n2)) or '-'
+        k = rng.randint(0, n1)
+        for kind in ('buf', 'ped'):
+            rc.append((kind, d1, k, d2, 'rcopy %s %s %d %s' % (kind, d1, k, d2)))
+    ro = run_prim(pool, [x[4] for x in rc])
+    for (kind, d1, k, d2, line), o in zip(rc, ro):
+        ctx.count('reader-copies:' + kind, line)
+        if o.startswith(('CRASH', 'HARNESS', 'EXCEPTION', 'OOM')):
+            ctx.violate('memory-error:' + kind, 'copying a reader crashed or tripped a sanitizer: %s -> %s' % (line[:200], o[:300]), {'case': line, 'output': o})
+            continue
+        f = sx.fields(o)
+        nz = lambda x: '' if x == '-' else x
+        n1, n2 = len(d1) // 2, len(nz(d2)) // 2
+        if nz(f['first']) + nz(f['rest']) != d1 or f['obs'] != '0/%d' % n1:
+            ctx.violate('reader-copy:' + kind, 'a copy of a %s reader that had consumed %d of %d bytes does not continue there: %s -> %s' % (kind, k, n1, line[:200], o[:200]), {'case': line, 'output': o})
+        elif nz(f['again']) != nz(d2) or f['rearmed'] != '%d/%d' % (n2, n2):
+            ctx.violate('reader-assign:' + kind, 'a used %s reader assigned a fresh reader over %d bytes does not read those bytes from their start: %s -> %s' % (kind, n2, line[:200], o[:200]), {'case': line, 'output': o})
+    # writers
+    wkinds = ['inst', 'buf', 'ped', 'vbuf', 'vped', 'cx', 'stream', 'fd', 'bbuf', 'bped', 'binst']
+    wl = []
+    for _ in range(500 if ctx.quick else 50000):
+        cap = rng.choice([0, 1, 4, 16, 64])
+        calls, used, fits = [], 0, True
+        for _ in range(rng.randint(1, 8)):
+            k = rng.choice('PwWWK')
+            if k == 'P':
+                calls.append('P%d' % rng.choice([0, 1, max(cap - used, 0), max(cap - used, 0) + 1, 2 ** 64 - 1]))
+            elif k == 'w':
+                calls.append('w%d' % rng.randrange(256)); used += 1
+            elif k == 'W':
+                w = rng.choice([1, 2, 4, 8]); c = rng.choice([0, 1, 2])
+                calls.append('W%dx%s' % (w, ''.join('%02x' % rng.randrange(256) for _ in range(w * c)))); used += w * c
+            else:
+                c = rng.choice([0, 1, 3]); calls.append('K%d:%d' % (c, rng.randrange(256))); used += c
+        wl.append((cap, calls, used))
+    wlines = []
+    for cap, calls, used in wl:
+        for k in wkinds:
+            cs = calls
+            if k == 'fd':
+                cs = [c for c in calls if c[0] != 'K']
+            if k in ('buf', 'vbuf', 'bbuf') and used > cap:
+                continue        # an unchecked writer must not be driven past its capacity (caller's contract)
+            wlines.append((k, cap, cs, used, 'wseq %s %d %d - 0 %s' % (k, cap, cap, ','.join(cs) or '-')))
+    ho = run_prim(pool, [l[4] for l in wlines])
+    mo = run_driver(pool, [l[4].replace('wseq vbuf', 'wseq buf').replace('wseq vped', 'wseq ped') for l in wlines])
+    for (k, cap, cs, used, line), o, m in zip(wlines, ho, mo):
+        ctx.count('writer:' + k, line)
+        if o.startswith(('CRASH', 'HARNESS', 'EXCEPTION', 'OOM')):
+            ctx.violate('memory-error:' + k, 'writer %s crashed or tripped a sanitizer: %s -> %s' % (k, line[:200], o[:300]), {'case': line, 'output': o})
+            continue
+        o, obs = split_obs(o)
+        f = sx.fields(o)
+        ov = obs_violation(k, f, obs, cap=(cap if k != 'binst' else None), lim=cap)
+        if ov:
+            ctx.violate('observers:' + k, 'writer %s: %s: %s' % (k, ov, line[:200]), {'case': line, 'output': o, 'observers': obs})
+        if m.startswith('DRIVER'):
+            continue
+        g = sx.fields(m)
+        if f.get('res') != g.get('res') or f.get('bytes') != g.get('bytes'):
+            if k in ('stream', 'fd', 'inst'):
+                ctx.violate('writer-contract:' + k, 'writer %s does not produce the byte stream of the calls: %s -> %s (expected %s)' % (k, line[:200], o[:160], m[:160]), {'case': line, 'output': o, 'model': m})
+            else:
+                # checked writers must refuse exactly the over-capacity calls: decided against the model
+                ctx.violate('writer-contract:' + k, 'writer %s deviates from the byte-sink contract (refusals / bytes): %s -> %s (expected %s)' % (k, line[:200], o[:160], m[:160]), {'case': line, 'output': o, 'model': m})
+    refusing_sinks(ctx, pool, rng, wl)
     # compile time = run time = documented format
     cxerr = os.path.join(pool.dir, 'cx.err')
     if os.path.exists(cxerr):
